@@ -209,3 +209,15 @@ def effective_click(focal_plane, nominal_raw, unit, scale_inch, target_inch, mag
     if unit in TANGENT_RUN:
         return math.atan(math.tan(nominal_raw) * k)
     return nominal_raw * k
+
+
+# ---------------------------------------------------------------------------------------
+# C16 / C20
+def row_eq(a, b):
+    """two trajectory rows carry the same data"""
+    return (a.time == b.time and raw(a.distance) == raw(b.distance) and raw(a.velocity) == raw(b.velocity)
+            and a.mach == b.mach and raw(a.height) == raw(b.height) and raw(a.target_drop) == raw(b.target_drop)
+            and raw(a.drop_adj) == raw(b.drop_adj) and raw(a.windage) == raw(b.windage)
+            and raw(a.windage_adj) == raw(b.windage_adj) and raw(a.look_distance) == raw(b.look_distance)
+            and raw(a.angle) == raw(b.angle) and a.density_factor == b.density_factor and a.drag == b.drag
+            and raw(a.energy) == raw(b.energy) and raw(a.ogw) == raw(b.ogw) and a.flag == b.flag)
